@@ -446,7 +446,11 @@ func ScalarSpecials() []V {
 			half := new(big.Int).Rsh(n, 1)
 			third := new(big.Int).Div(new(big.Int).Sub(n, big.NewInt(1)), big.NewInt(3))
 
-			for _, s0 := range []*big.Int{l, l2, new(big.Int).Sub(n, l), new(big.Int).Sub(n, l2), half, third, new(big.Int).Lsh(third, 1)} {
+			// (j+1) = λ^i j, i.e. j = 1/(λ^i - 1): the two registers have the same y and different x
+			i1 := new(big.Int).ModInverse(oracle.Mod(addI(l, -1), n), n)
+			i2 := new(big.Int).ModInverse(oracle.Mod(addI(l2, -1), n), n)
+
+			for _, s0 := range []*big.Int{l, l2, new(big.Int).Sub(n, l), new(big.Int).Sub(n, l2), half, third, new(big.Int).Lsh(third, 1), addI(i1, 1), addI(i2, 1)} {
 				for _, d := range []int64{-1, 0} {
 					j := addI(s0, d)
 					for _, sh := range []uint{1, 2, 3, 9} {
